@@ -371,10 +371,10 @@ func c19Correlation(c *Check, P string, m *MW) {
 	}
 	var sets, gets []ssa.CallInstruction
 	for _, cl := range CallsIn(I) {
-		if cl.Common().StaticCallee() == setF {
+		if CalleeFn(cl.Common()) == setF {
 			sets = append(sets, cl)
 		}
-		if cl.Common().StaticCallee() == getF {
+		if CalleeFn(cl.Common()) == getF {
 			gets = append(gets, cl)
 		}
 	}
@@ -383,7 +383,7 @@ func c19Correlation(c *Check, P string, m *MW) {
 	}
 	for _, s := range sets {
 		idv, ok := firstOrigin(s.Common().Args[0]).(*ssa.Call)
-		okID := ok && idv.Call.StaticCallee() == getF && m.IsMsg(idv.Call.Args[0])
+		okID := ok && CalleeFn(&idv.Call) == getF && m.IsMsg(idv.Call.Args[0])
 		c.Report(okID, P+".O2", "CORRELATION-SOURCE", I, s.Pos(), "CorrelationID", "the id is read from the consumed message")
 		out := firstOrigin(s.Common().Args[1])
 		okOut := false
@@ -407,7 +407,7 @@ func c19Correlation(c *Check, P string, m *MW) {
 	}
 	var cur []ssa.CallInstruction
 	for _, cl := range CallsIn(setF) {
-		if cl.Common().StaticCallee() == getF && FromParam(msgP[0])(cl.Common().Args[0]) {
+		if CalleeFn(cl.Common()) == getF && FromParam(msgP[0])(cl.Common().Args[0]) {
 			cur = append(cur, cl)
 		}
 	}
@@ -451,7 +451,7 @@ func c19Delay(c *Check, P string, m *MW) {
 	_, fail := NilEdges(I, ResultOfAny(m.HCalls, 1))
 	var helpers []ssa.CallInstruction
 	for _, cl := range CallsIn(I) {
-		cal := cl.Common().StaticCallee()
+		cal := CalleeFn(cl.Common())
 		if cal != nil && cal.Pkg == I.Pkg && len(ReachesCall(cal, 1, delayPkg+".Message")) > 0 {
 			helpers = append(helpers, cl)
 		}
@@ -470,7 +470,7 @@ func c19Delay(c *Check, P string, m *MW) {
 		c.Report(okM, P+".O2", "DELAY-ON-CONSUMED", I, h.Pos(), "DelayOnError", "the delay is stamped on the consumed message")
 		c.Report(!InLoop(h), P+".O2", "DELAY-ONCE", I, h.Pos(), "DelayOnError", "one stamp per failure")
 	}
-	H := helpers[0].Common().StaticCallee()
+	H := CalleeFn(helpers[0].Common())
 	c.Use(P+".O4", H, "DelayOnError delay helper")
 	isMul := func(v ssa.Value) bool { return AllOrigins(v, exportedFieldLoad("Multiplier")) }
 	// O4: float→int conversions take the product
